@@ -8,6 +8,7 @@ import itertools
 from datetime import timedelta
 
 from mc.core import Res
+from mc import adapt as A
 from mc import keys as K
 from mc import sigscen as S
 from refpgp import sig as rsig, wire, keys as rkeys
@@ -562,7 +563,7 @@ class Prop(object):
                     continue
                 # third-party certification of a user id that hangs on the target key
                 uid = pgpy.PGPUID.new(ustr)
-                uid._parent = tpub
+                A.attach(uid, tpub)
                 o = {'sig': key.certify(uid, level=SignatureType.Casual_Cert, **kw), 'verify_subject': uid, 'verifier': kpub, 'ref_key': raw,
                      'ref_subject': {'key': tbody, 'uid': ustr.encode('utf-8')}, 'want_type': 0x12}
                 both(o, {'subject': 'uid', 'cls': name}, dict(case, only=name), 'certification of user id %r' % ustr[:40])
@@ -571,7 +572,7 @@ class Prop(object):
                 if only and name != only:
                     continue
                 ua = pgpy.PGPUID.new(bytearray(img))
-                ua._parent = tpub
+                A.attach(ua, tpub)
                 o = {'sig': key.certify(ua, level=SignatureType.Generic_Cert, **kw), 'verify_subject': ua, 'verifier': kpub, 'ref_key': raw,
                      'ref_subject': {'key': tbody, 'uat': wire.read_packet(bytes(ua._uid.__bytearray__()))['body']}, 'want_type': 0x10}
                 both(o, {'subject': 'uat', 'cls': name}, dict(case, only=name), 'certification of a %d-octet image attribute' % len(img))
